@@ -44,6 +44,7 @@ type Program struct {
 	LoadWarnings []string
 	KnownFams map[string]int
 	errTab    map[string]int64
+	reach     map[*FuncInfo]bool
 }
 
 func LoadProgram(repo string, patterns []string) (*Program, error) {
